@@ -55,6 +55,24 @@ CLAIMED = {
         "writer.Write is synchronous (true of os.Stdout, files, bytes.Buffer); Go memory model",
         "DESIGN.md 4.11",
     ),
+    "C10": (
+        "static consumer-loop path rules (filter gate, write-once, RawData operand), wiring-table extraction (which consumer gets which writer under which switch, fan-out list membership), composition with the C01/C03/C09 rule sets, join analysis for all consumer goroutines",
+        "Decides the filter/wiring/join structure of rtcmfilter on every path and schedule, composed with the framing rules; numerical equality of output and input frames is implied, not replayed.",
+        "dailylogger dependency; CRC arithmetic at the pinned version",
+        "DESIGN.md 4.10",
+    ),
+    "C13": (
+        "static classification of every return of the file handler by its dominating conditions (retryable vs fatal, zero tolerance, tolerance elapsed), forward-once path rule with the bufio short-read argument, EOF-clock phi analysis, close/flush rules",
+        "Decides the retry structure for all placements of EOF/timeout results: which conditions stop the handler, that every byte read is forwarded exactly once, that the partial frame is flushed and the channel closed.",
+        "bufio.Reader.Read contract for short destinations; real time not modelled",
+        "DESIGN.md 4.13",
+    ),
+    "C15": (
+        "static effect/mod analysis: package variables written only in init, no store through raw frame buffers, display stores confined to Readable/ErrorMessage and idempotent (no read-modify-write), handler holds no references, by-value fan-out before any display, no reads of mutable package state",
+        "Decides absence of hidden state and of shared mutable data on the decode/display path for all orders, repetitions and concurrent handlers (effect analysis over every reachable function).",
+        "fmt/hex/time formatting is pure; time lines excluded by the property",
+        "DESIGN.md 4.15",
+    ),
     "C16": (
         "static path rules (read->write->send exactly once, in order, same buffer and n), private-copy dataflow, consumer-loop rule, join analysis",
         "Decides the tee structure of rtcmlogger on every CFG path: each block read is written to stdout and sent as a fresh copy to the recorder exactly once, the recorder writes every block and is joined before start returns. Does not decide dailylogger's file handling.",
